@@ -503,6 +503,15 @@ func (o *ShelleyTransactionOutput) UnmarshalCBOR(cborData []byte) error {
 	return nil
 }
 
+func (o *ShelleyTransactionOutput) MarshalCBOR() ([]byte, error) {
+	// Return the original CBOR if available so that re-encoding a decoded
+	// object reproduces the exact bytes it was decoded from
+	if o.Cbor() != nil {
+		return o.Cbor(), nil
+	}
+	return cbor.EncodeGeneric(o)
+}
+
 func (o ShelleyTransactionOutput) ToPlutusData() data.PlutusData {
 	var valueData [][2]data.PlutusData
 	if o.OutputAmount > 0 {
